@@ -47,6 +47,14 @@ class SimConnection(_Connection):
         self._check_writable()
         self._send_bytes(_dumps(obj))
 
+    def recv(self):
+        """as the stdlib's, but unpickling from bytes instead of from a memoryview of the BytesIO (same reason as send(): an
+        exception escaping from here - asynchronous, or raised by the unpickling itself - can leave that view in a garbage cycle)"""
+        self._check_closed()
+        self._check_readable()
+        buf = self._recv_bytes()
+        return ForkingPickler.loads(buf.getvalue())
+
     def _send(self, buf, write=None):
         return _Connection._send(self, buf, write=self._sim_write)
 
